@@ -27,16 +27,35 @@ twin target that commits the same insertions directly must end with the same
 pack-names and the same accept/refuse as suspend → reopen → resume → commit;
 tokens returned by suspend are 32 lower-case hex digits and name files in upload/.
 
-Mutants (scratch worktree):
- M1 _abort_write_group: `self._new_pack.abort()` replaced by finish+allocate+save   -> caught
- M2 _commit_write_group: `if all_missing: raise` dropped                            -> caught (knit formats)
- M3 _commit_write_group: `problems = []` (no _check_new_inventories)                -> caught (2a)
- M4 _suspend_write_group: token of the new pack not appended                         -> caught
- M5 _resume_write_group (PackRepository): resumed revision index not scanned         -> caught
- M6 _resume_pack: regex check dropped (`if False and …`)                             -> see docstring of run(): still Unresumable through NoSuchFile — equivalent mutant
- M7 _commit_write_group: resumed packs not allocated (`self.allocate(resumed_pack)` dropped) -> caught
- M8 _check_new_inventories: parent inventories looked up with fallbacks              -> caught (stacked)
- H1 harmless: `tokens = [p.name for p in self._resumed_packs]` as a loop            -> clean
+Findings on the unchanged code (reported with a family computed from the failing script;
+see oracle()):
+ * `knit-missing-compression-parent-survives-abort` (knit pack formats): abort_write_group does
+   not reset the index's missing-compression-parent set, so the same Repository object refuses
+   every later complete write group.  The model carries this bookkeeping (`Repo.stale`), Props
+   proves `stale_after_abort_witness`; the positive statements needing a clean object are
+   `…_partial`.
+ * `refused-commit-after-finishing-earlier-resumed-pack` (knit pack formats, >= 2 resumed packs):
+   the refusal comes from a later pack's finish(); earlier resumed packs are already moved out of
+   upload/, abort_write_group then raises NoSuchFile.  The model describes the refusal as the
+   no-op the property demands (`refused_commit_noop`); the prefixes after the event are checked by
+   the oracle only.
+
+Mutants (scratch worktree /var/tmp/wt-C06; "caught" = unclassified oracle violation unless noted):
+ M1  _abort_write_group: new pack finished+allocated+names saved instead of aborted   -> caught
+ M2  _commit_write_group: `if all_missing: raise` disabled        -> caught by T2 only (the pack's own
+     _check_references still refuses an incomplete new pack; what differs is the stale-set case)
+ M3  _commit_write_group: `problems = []` (no _check_new_inventories)                 -> caught (2a)
+ M4  _suspend_write_group: token of the new pack not appended                          -> caught (equivalence oracle)
+ M5  PackRepository._resume_write_group: resumed revision index not scanned            -> caught
+ M6  _resume_pack: regex check disabled      -> equivalent: every malformed token still ends in
+     UnresumableWriteGroup through NoSuchFile
+ M7  _commit_write_group: resumed packs finished but not allocated                     -> caught
+ M8  _check_new_inventories: inventories looked up with fallbacks   -> equivalent (the chk-root check
+     still uses the no-fallback index);  M8b: texts looked up with fallbacks -> caught (stacked 2a)
+ M9  _abort_write_group: resumed packs not aborted (left in upload/)                   -> caught by T2
+ M10 _check_new_inventories: missing text keys ignored                                 -> caught
+ M11 _suspend_write_group returns only the first token                                 -> caught
+ H1  harmless: token list comprehension rewritten as a loop                            -> clean
 """
 import os
 import re
@@ -55,6 +74,8 @@ ASSUMPTIONS = [
     "inventories of the generated source have single-page CHK maps (checked for every inventory)",
     "no key is inserted twice into the same target (the generator tracks what is present)",
     "fewer than 10 packs per target: autopack (C07) does not trigger",
+    "stacked knit targets: a delta whose compression parent is in the fallback repository is stored as a full text "
+    "(bzrformats knit insert_record_stream), so the harness hands it to the model without compression parent",
 ]
 TRUSTED = [
     "bzrformats NewPack/ResumedPack/knit/groupcompress/btree index (compiled, external): observed, not modelled",
@@ -443,6 +464,7 @@ def run_real(flavour, ops, src_cache=source_for, direct=False):
     steps = []
     group_recs = []        # canonical keys inserted into the open new pack
     resumed_recs = []      # canonical keys of the resumed packs
+    resumed_n = 0
     try:
         for op in ops:
             kind = op[0]
@@ -504,12 +526,15 @@ def run_real(flavour, ops, src_cache=source_for, direct=False):
                     t.repo.resume_write_group(real)
                     group_recs = []
                     resumed_recs = [x for tk in real for x in t.names.get(tk, ".").split("+") if x != "."]
+                    resumed_n = len(real)
             except Exception as e:  # mapped to a class; unexpected ones show up as a T2 difference
                 res = _exc_class(e)
             obs = t.observe()
             obs["in_wg"] = bool(t.repo.is_in_write_group())
             if not obs["in_wg"]:
                 resumed_recs = []
+                resumed_n = 0
+            obs["resumed_n"] = resumed_n
             obs["group"] = sorted(set(group_recs) | set(resumed_recs)) if obs["in_wg"] else []
             steps.append((res, obs))
     finally:
@@ -517,7 +542,24 @@ def run_real(flavour, ops, src_cache=source_for, direct=False):
     return steps, issued, t
 
 
-def model_ops(ops, src):
+def _rec(src, vf, key, base):
+    """model record; a delta whose compression parent lives in the fallback repository is stored as
+    a full text by knit's insert_record_stream, so it travels without compression parent"""
+    r = src.rec[(vf, key)]
+    f = r.split(":")
+    if base and f[2] != "~" and ("%s%s" % (f[0], f[2])) in base:
+        f[2] = "~"
+    return ":".join(f)
+
+
+def base_keys(src, stacked):
+    if not stacked:
+        return set()
+    p = src.of_rev[0]
+    return {src.canon(*x) for x in [p["rev"], p["inv"]] + p["chk"] + p["texts"]}
+
+
+def model_ops(ops, src, base=()):
     out = []
     for op in ops:
         k = op[0]
@@ -525,13 +567,13 @@ def model_ops(ops, src):
             out.append(k)
         elif k == "I":
             key = next(kk for (v, kk), m in src.num.items() if v == op[1] and m == op[2])
-            out.append("I" + src.rec[(op[1], key)])
+            out.append("I" + _rec(src, op[1], key, base))
         elif k == "F":
             # the records before the failing one are inserted one by one
             sub = []
             for vf, n in op[1][:op[2]]:
                 key = next(kk for (v, kk), m in src.num.items() if v == vf and m == n)
-                sub.append("I" + src.rec[(vf, key)])
+                sub.append("I" + _rec(src, vf, key, base))
             out.append(sub)
         elif k == "R":
             toks = []
@@ -556,7 +598,8 @@ def _worker(item):
     try:
         steps, issued, t = run_real(flavour, ops)
         src = t.src
-        mops = model_ops(ops, src)
+        base = base_keys(src, t.stacked)
+        mops = model_ops(ops, src, base)
         lines = []
         impl = []
         fm = "C" if src.chk else "K"
@@ -575,10 +618,21 @@ def _worker(item):
         cps = {}
         for (vf, key), recs in src.rec.items():
             f = recs.split(":")
-            if f[2] != "~":
+            if f[2] != "~" and ("%s%s" % (f[0], f[2])) not in base:
                 cps[src.canon(vf, key)] = "%s%s" % (f[0], f[2])
+        needs = {}
+        for i, parts in src.of_rev.items():
+            needs[src.canon(*parts["rev"])] = [src.canon(*x) for x in [parts["inv"]] + parts["chk"] + parts["texts"]]
+        alltexts = {}
+        if src.chk:
+            for i, rid in enumerate(src.revs):
+                inv = src.repo.get_inventory(rid)
+                alltexts[src.canon("revisions", (rid,))] = dict(
+                    texts=sorted(src.canon("texts", (ie.file_id, ie.revision)) for _, ie in inv.iter_entries_by_dir()),
+                    parent_inv=src.canon("inventories", (src.revs[i - 1],)) if i else None,
+                    parent_rev=src.canon("revisions", (src.revs[i - 1],)) if i else None)
         return dict(steps=[(r, o) for r, o in steps], lines=lines, impl=impl, issued=issued, cps=cps,
-                    chk=src.chk)
+                    chk=src.chk, needs=needs, alltexts=alltexts)
     except env.InfraError:
         raise
     except Exception as e:
@@ -591,11 +645,14 @@ def _worker(item):
 # --------------------------------------------------------------------------
 
 FAMILY_STALE = "knit-missing-compression-parent-survives-abort"
+FAMILY_PARTIAL = "refused-commit-after-finishing-earlier-resumed-pack"
 
 
-def oracle(ctx, case, ops, steps, issued, cps=None, chk=True):
+def oracle(ctx, case, ops, steps, issued, cps=None, chk=True, needs=None, alltexts=None):
     bad = []
     aborted_incomplete = False    # this Repository object aborted a group with a missing compression parent
+    partial = False               # a refused commit already moved a resumed pack out of upload/
+    first_classified = None
     opened = None        # observation when the current group was opened
     prev = None
     for i, (op, (res, obs)) in enumerate(zip(ops, steps)):
@@ -607,11 +664,29 @@ def oracle(ctx, case, ops, steps, issued, cps=None, chk=True):
             opened = prev
         if k == "O":
             aborted_incomplete = False
+            partial = False
+        if k == "C" and res == "E:Check" and prev is not None and prev["upload_names"] != obs["upload_names"]:
+            # family: knit pack format, >= 2 resumed packs, the refusal comes from a later pack's
+            # reference check after an earlier resumed pack was already finished
+            fam = FAMILY_PARTIAL if (not chk and prev["resumed_n"] >= 2) else None
+            partial = fam is not None
+            bad.append(("op %d commit: refused (BzrCheckError) but suspended packs %r disappeared from upload/ "
+                        "(now %r)" % (i, sorted(set(prev["upload_names"]) - set(obs["upload_names"])),
+                                      obs["upload_names"]), fam))
+        if k == "A" and not (res == "ok" or res == "E:NotInWG"):
+            bad.append(("op %d abort_write_group raised %s" % (i, res), FAMILY_PARTIAL if partial else None))
+        if partial and k in ("S", "C", "I", "U", "R") and res.startswith("E:") and res not in (
+                "E:Check", "E:NotInWG", "E:AlreadyInWG", "E:Unresumable", "E:Assertion", "E:AttributeError"):
+            bad.append(("op %d %r raised %s on the Repository object left by the refused commit" % (i, op, res),
+                        FAMILY_PARTIAL))
         if cps is not None and not chk and prev is not None:
             own = set(prev["pack_union"]) | set(prev["group"])
             lacking = [x for x in prev["group"] if x in cps and cps[x] not in own]
             if k == "A" and res == "ok" and lacking:
                 aborted_incomplete = True
+            if k == "C" and res == "ok" and lacking:
+                bad.append(("op %d commit accepted a write group in which %r lack their compression parents" % (
+                    i, lacking), None))
             if k == "C" and res == "E:Check" and not lacking:
                 bad.append(("op %d commit: a write group whose records %r lack no compression parent is refused "
                             "(BzrCheckError)%s" % (i, prev["group"], " after an earlier group with a missing "
@@ -626,8 +701,26 @@ def oracle(ctx, case, ops, steps, issued, cps=None, chk=True):
             if obs["names"] != opened["names"] or obs["api"] != opened["api"]:
                 bad.append("op %d abort: pack-names %r / keys differ from before the group %r" % (
                     i, obs["names"], opened["names"]))
-        if k == "U" and res.startswith("T:"):
-            pass
+        if chk and needs is not None and k == "C" and res == "ok" and prev is not None:
+            # a revision that became visible must come with its inventory, its chk root pages and
+            # the texts it introduces itself (these can never be supplied by a parent inventory)
+            vis = set(obs["api"])
+            for rv in sorted(vis - set(prev["api"])):
+                if rv in needs:
+                    miss = [x for x in needs[rv] if x not in vis]
+                    if miss:
+                        bad.append(("op %d commit accepted revision %s although %r are absent" % (i, rv, miss), None))
+                if alltexts and rv in alltexts:
+                    # stacking invariant: texts the inventory names that are not named by a parent
+                    # inventory held by this repository itself must be in this repository
+                    a = alltexts[rv]
+                    have_parent = a["parent_inv"] is not None and a["parent_inv"] in vis
+                    inherited = set(alltexts[a["parent_rev"]]["texts"]) if have_parent else set()
+                    miss = [x for x in a["texts"] if x not in inherited and x not in vis]
+                    if miss:
+                        bad.append(("op %d commit accepted revision %s (parent inventory %s) although the texts %r "
+                                    "its inventory names are not in this repository" % (
+                                        i, rv, "present" if have_parent else "absent", miss), None))
         prev = obs
     for tk in issued:
         if not re.fullmatch("[a-f0-9]{32}", tk):
@@ -637,10 +730,13 @@ def oracle(ctx, case, ops, steps, issued, cps=None, chk=True):
     for b in bad:
         msg, fam = b if isinstance(b, tuple) else (b, None)
         out.append(dict(what=msg, family=fam))
+        if fam == FAMILY_PARTIAL and first_classified is None:
+            first_classified = int(msg.split()[1])
         if fam in fams or (fam is None and len(fams) >= 3):
             continue
         fams.add(fam)
         ctx.violation(case, msg, family=fam)
+    oracle.cut = first_classified
     return out
 
 
@@ -682,8 +778,15 @@ def run(ctx, n=None):
         last = res["steps"][-1][1]
         if last["upload_junk"] and not last["in_wg"]:
             ctx.count("scripts_leaving_unnamed_files_in_upload")
-        oracle(ctx, case, ops, res["steps"], res["issued"], res["cps"], res["chk"])
+        oracle(ctx, case, ops, res["steps"], res["issued"], res["cps"], res["chk"], res["needs"], res["alltexts"])
+        cut = oracle.cut
+        if cut is not None:
+            # the object and upload/ are in the state left by the classified defect: the model describes
+            # the refusal as a no-op, so the remaining prefixes are reported by the oracle only
+            ctx.count("t2_prefixes_skipped_after_classified_finding", len(ops) - cut)
         for j, (l, im) in enumerate(zip(res["lines"], res["impl"])):
+            if cut is not None and j >= cut:
+                break
             cases.append(dict(case, prefix=j + 1))
             lines.append(l)
             impls.append(im)
@@ -760,7 +863,7 @@ def replay(ctx, case):
     res = _worker((0, case["flavour"], case["ops"]))
     if "error" in res:
         return dict(case=case, error=res["error"], tb=res["tb"])
-    bad = oracle(ctx, case, case["ops"], res["steps"], res["issued"], res["cps"], res["chk"])
+    bad = oracle(ctx, case, case["ops"], res["steps"], res["issued"], res["cps"], res["chk"], res["needs"], res["alltexts"])
     m = ctx.model(res["lines"]) if ctx.model_available else None
     out = dict(case=case, impl=res["impl"], model=m, oracle_failures=bad)
     if "direct" in case:
